@@ -73,6 +73,25 @@ CLAIMED = {
         "technique": "machine-checked proof in Rocq (Coq 8.16) of multimap laws + witnesses over the converter model; direct oracle and differential correspondence for the quantified statement",
         "design": "DESIGN.md §7 C07",
     },
+    "C08": {
+        "text": "PARTIAL. Rocq theorems for every link of the resolution chain over the converter/process model: C08_storage_source, C08_image_source, C08_network (a reference to a unit in the name "
+                "table uses the table's object name and adds Requires=/After= on the table's service file; a missing unit gives an error carrying its file name), C08_service_names (the stored "
+                "service name is ServiceName or <stem><suffix>), C08_tables_set (a successful .volume/.network/.image conversion stores exactly the documented object name -- VolumeName/NetworkName or "
+                "systemd-<stem>, ImageTag or Image -- under its file name), C08_sorted (units are processed in a priority-sorted permutation, so referenced types come first). The composition over arbitrary "
+                "reference graphs (and 'fails only the referring unit') is decided by the direct oracle (in-process and end to end) and whole-set correspondence of the Process model.",
+        "note": "Trusted: Coq kernel; Spec/Names.v; the converter/process model (differentially validated on unit sets with references); sort_unstable_by is modelled by a stable sort.",
+        "technique": "machine-checked proof in Rocq (Coq 8.16) of the resolution lemmas over the converter model + direct oracle on reference graphs + differential correspondence",
+        "design": "DESIGN.md §7 C08",
+    },
+    "C09": {
+        "text": "PARTIAL. Rocq theorems over the converter model: C09_member (a container naming a pod in the table gets --pod-id-file %t/<pod service file stem>.pod-id, BindsTo=/After= the pod's service file, "
+                "and is recorded in the pod's start list exactly when StartWithPod is not off), C09_errors (non-.pod value and missing pod fail with errors carrying the value), C09_members_wired (a pod's [Unit] gains Wants= "
+                "and Before= for exactly the recorded services, in order), C09_slash_refuted (the repaired ServiceName-with-'/' mismatch). 'Exactly its starting members, no more and no fewer, whatever the numbers and names' over "
+                "whole runs is decided by the direct oracle (in-process and end to end) and whole-set correspondence of the Process model.",
+        "note": "Trusted: Coq kernel; the converter/process model; a container failing after the pod look-up stays recorded (modelled, and outside the oracle's generated cases).",
+        "technique": "machine-checked proof in Rocq (Coq 8.16) of the pod handlers over the converter model + direct oracle on pod/container sets + differential correspondence",
+        "design": "DESIGN.md §7 C09",
+    },
     "C12": {
         "text": "PARTIAL. Rocq theorems for the lexical core of enable_service_file over the std::path model: C12_inside (normalising any relative path yields k times '..' followed by plain "
                 "names), C12_accepted_alias_is_plain (an Alias word passing the repaired filter normalises to plain names only -- never absolute, never climbing), C12_resolves (a link n "
